@@ -1823,8 +1823,11 @@ class Client:
                     # remove from inflight messages so it will be send after a connection is made
                     # (also when the connection was lost while writing this very packet)
                     if rc != MQTTErrorCode.MQTT_ERR_SUCCESS:
-                        self._inflight_messages -= 1
-                        message.state = mqtt_ms_publish
+                        if message.state in (mqtt_ms_wait_for_puback, mqtt_ms_wait_for_pubrec):
+                            # (otherwise a reconnect() made in on_disconnect has already rewound
+                            # this message and counted the in-flight messages afresh)
+                            self._inflight_messages -= 1
+                            message.state = mqtt_ms_publish
                         rc = MQTTErrorCode.MQTT_ERR_NO_CONN
 
                     message.info.rc = rc
